@@ -49,6 +49,15 @@ def _write_file(file_path, string):
         f.write(string)
 
 
+def write_files(rendered):
+    """ Writes [(path, content)]; refuses before the first byte is written when one of the files cannot be written. """
+    for file_path, _ in rendered:
+        if os.path.isdir(file_path) or not os.access(file_path if os.path.exists(file_path) else os.path.dirname(file_path) or os.curdir, os.W_OK):
+            raise IOError("%s cannot be written" % file_path)
+    for file_path, file_content in rendered:
+        _write_file(file_path, file_content)
+
+
 def _make_path(output_dir, base_name, extension):
     assert extension.startswith(".")
     assert os.path.isdir(output_dir), "Output directory %s doesn't exist." % output_dir
@@ -74,13 +83,19 @@ class GeneratorBase(GeneratorAbc):
     def __init__(self, output_directory="."):
         self.output_dir = output_directory
 
-    def serialize(self, nodes, base_name):
+    def render(self, nodes, base_name):
+        """ The files this generator writes for the nodes: [(path, content)]. """
         self.check_nodes(nodes)
 
+        rendered = []
         for extension, translator_type in self.top_level_translators.items():
             file_path = _make_path(self.output_dir, base_name, extension)
             translator = translator_type()
-            file_content = translator(nodes, base_name)
+            rendered.append((file_path, translator(nodes, base_name)))
+        return rendered
+
+    def serialize(self, nodes, base_name):
+        for file_path, file_content in self.render(nodes, base_name):
             _write_file(file_path, file_content)
 
 
